@@ -910,8 +910,10 @@ impl Xot {
         }
         // record previous sibling
         let previous_node = self.previous_sibling(replaced_node);
-        if previous_node == Some(replacing_node) {
-            // the replacing node is already in place
+        if previous_node == Some(replacing_node)
+            || self.next_sibling(replaced_node) == Some(replacing_node)
+        {
+            // the replacing node is already in place, next to the replaced node
             return self.remove(replaced_node);
         }
         // remove the replaced node, use low-level remove_tree to avoid
